@@ -21,6 +21,12 @@ def c14(ck, tier, seed):
         res = vlib.run_driver(binary, "oom", {"kind": k, "seed": seed + i, "tier": tier}, od, timeout=1200)
         files += ck.add_driver(res)
         cmds.append(" ".join(map(str, res["cmd"])))
+    # capacity probe: the full capacity is available again after drop-all + gc (fill to the first failure = fresh fill)
+    for i, k in enumerate(KINDS):
+        od = os.path.join(ck.outdir, "capprobe-" + k)
+        res = vlib.run_driver(binary, "capprobe", {"kind": k, "seed": seed * 29 + i, "tier": tier}, od, timeout=900)
+        files += ck.add_driver(res)
+        cmds.append(" ".join(map(str, res["cmd"])))
     # calls without an error return (set_var_order, add_vars) under memory pressure, one process each
     for k in KINDS:
         for scen in (["reorder", "add_vars"] if k != "zbdd" else ["add_vars"]):
